@@ -1254,18 +1254,21 @@ class _ScalarAttributeImpl(_AttributeImpl):
         else:
             old = dict_.get(self.key, NO_VALUE)
 
-        if self.dispatch.remove:
-            self.fire_remove_event(state, dict_, old, self._remove_token)
-        state._modified_event(dict_, self, old)
-
-        existing = dict_.pop(self.key, NO_VALUE)
+        # raise before any event / history is recorded, so that a failed
+        # delete leaves the object unchanged
         if (
-            existing is NO_VALUE
+            self.key not in dict_
             and old is NO_VALUE
             and not state.expired
             and self.key not in state.expired_attributes
         ):
             raise AttributeError("%s object does not have a value" % self)
+
+        if self.dispatch.remove:
+            self.fire_remove_event(state, dict_, old, self._remove_token)
+        state._modified_event(dict_, self, old)
+
+        dict_.pop(self.key, NO_VALUE)
 
     def get_history(
         self,
